@@ -228,7 +228,7 @@ func c18Filter(c *Check, P string, hn *ssa.Function, isKeyGet func(ssa.Value, fu
 	}
 	for i, r := range Returns(hn) {
 		k := fmt.Sprintf("filter return#%d", i)
-		for _, v := range Origins(r.Results[1]) {
+		for _, v := range RetOrigins(r, 1) {
 			cst, ok := v.(*ssa.Const)
 			if !ok || cst.Value == nil {
 				c.Undecided(P+".O1", "FILTER", hn, r.Pos(), k, "the matched flag is not a constant")
@@ -481,7 +481,7 @@ func c18Processed(c *Check, P string, fn *ssa.Function, key string, isKeyGet fun
 			continue
 		}
 		k := fmt.Sprintf("return#%d", i)
-		for _, v := range Origins(r.Results[0]) {
+		for _, v := range RetOrigins(r, 0) {
 			switch {
 			case IsNilConst(v):
 				c.Report(GuardedBy(fn, r, finalOK) && GuardedBy(fn, r, ackTrue), P+".O2", "REPLY-BEFORE-SETTLE/ack", fn, r.Pos(), k, "nil (⇒ Ack) is returned only after the reply was published, on the AckCommandErrors edge")
@@ -613,7 +613,10 @@ func c18Send(c *Check, P string, key string) {
 	}
 	if c.Floor(P+".O4", "context.WithCancel in SendWithReplies", b2i(wc != nil), 1) {
 		isCancel := func(v ssa.Value) bool {
-			return AnyOrigin(v, func(o ssa.Value) bool { e, ok := o.(*ssa.Extract); return ok && e.Tuple == CallValue(wc) && e.Index == 1 })
+			return AnyOrigin(v, func(o ssa.Value) bool {
+				e, ok := o.(*ssa.Extract)
+				return ok && e.Tuple == CallValue(wc) && e.Index == 1
+			})
 		}
 		errCell := ResultCell(fn, 2)
 		deferred := false
@@ -769,7 +772,7 @@ func c18Adapters(c *Check, P string) {
 		for i, r := range Returns(inner) {
 			after := ReachAfter(p, nil)[r]
 			ok := true
-			for _, v := range Origins(r.Results[0]) {
+			for _, v := range RetOrigins(r, 0) {
 				if after {
 					if !IsResultOf(v, p, 0) {
 						ok = false
@@ -836,7 +839,10 @@ func c18ListenerTimeout(c *Check, P string, listen *ssa.Function) {
 	// on that edge, the context handed to the subscriber and captured by the listener is the timeout context
 	subs := CallsTo(listen, nSubscribe)
 	for _, s := range subs {
-		okS := AnyOrigin(Arg(s, 0), func(o ssa.Value) bool { e, ok := o.(*ssa.Extract); return ok && e.Tuple == CallValue(wt) && e.Index == 0 })
+		okS := AnyOrigin(Arg(s, 0), func(o ssa.Value) bool {
+			e, ok := o.(*ssa.Extract)
+			return ok && e.Tuple == CallValue(wt) && e.Index == 0
+		})
 		c.Report(okS, P+".O5", "TIMEOUT-BOUNDS-LISTENER", listen, s.Pos(), "listener context", "the listener's context (used by Subscribe and by every escapable send/receive of the listener) is the one bounded by ListenForReplyTimeout")
 	}
 }
